@@ -16,8 +16,39 @@ def plan_multi(ctx):
     return plan
 
 
-def run_history(ctx, exe, phases, sub, export=None, only=None, seed=None):
+def merge_by_object(files, outp):
+    """Concatenates the per-object memo segments of several history traces (several processes): one segment per object."""
+    head, segs, order = None, {}, []
+    for f in files:
+        lines = open(f).readlines()
+        if head is None:
+            head = lines[:4]
+        cur = None
+        for ln in lines[4:]:
+            if '"ev":"Reset"' in ln[:60]:
+                cur = json.loads(ln)['obj']
+                if cur not in segs:
+                    segs[cur] = [ln]
+                    order.append(cur)
+                continue
+            segs[cur].append(ln)
+    with open(outp, 'w') as fh:
+        fh.writelines(head)
+        for o in order:
+            fh.writelines(segs[o])
+
+
+def cfg_probe(ctx, exe):
+    """Objects on which a configurable lint judges: the configuration histories always include them (VERIF_USE_IDS)."""
+    d = vlib.drive(ctx, exe, 'cfgprobe')
+    vlib.GOENV['VERIF_USE_IDS'] = os.path.join(d, 'ids.json')
+    return len(json.load(open(os.path.join(d, 'ids.json'))) or [])
+
+
+def run_history(ctx, exe, phases, sub, export=None, only=None, seed=None, env2=None):
     env = {'VERIF_PHASES': phases}
+    if env2:
+        env.update(env2)
     if export:
         env['VERIF_EXPORT'] = export
     extra = ['-only', only] if only else []
